@@ -20,7 +20,7 @@ EXPLANATION = (
     "stability on probe frames; mutations performed by user callbacks."
 )
 LEVEL_RULE = "one obligation per write site reaching a shared schema/check/dtype object from an observer entry"
-FLOORS = {"R1": 10, "R2": 4, "R3": 1, "R4": 10, "R5": 1}
+FLOORS = {"R1": 10, "R2": 4, "R3": 1, "R4": 10, "R5": 1, "R6": 1}
 
 OBSERVER_METHODS = ["__repr__", "__str__", "__eq__", "properties", "dtypes", "get_dtypes", "get_metadata", "strategy",
                     "example", "strategy_component", "to_yaml", "to_json", "to_script", "coerce_dtype", "validate",
@@ -206,5 +206,8 @@ def run(ctx):
     r2_frozen(ctx)
     r3_cache(ctx)
     r4_transforms(ctx)
+    # R6: hidden state outside the schema object - the context configuration that polars validate overrides per call
+    from .c06 import config_context_restore
+    config_context_restore(ctx, "R6")
     ctx.assume("user-supplied callbacks (check functions, parsers, custom dtypes) do not mutate the schema")
     ctx.assume("results of unresolved external calls are fresh; copy.copy is shallow (contents alias), deepcopy is fresh")
